@@ -7,6 +7,7 @@ sys.path.insert(0, os.path.dirname(os.path.abspath(__file__)))
 from vplib import facts, inline
 
 names = set()
+sig = {}
 cfgs = ["W"] + list(facts.all_feature_configs(with_simd=True))
 for c in cfgs:
     try:
@@ -17,11 +18,14 @@ for c in cfgs:
     import glob, json
     for f in sorted(glob.glob(os.path.join(d, "*.json"))):
         j = json.load(open(f))
+        sigs = {f["path"]: "%s -> %s" % (", ".join(f["inputs"]), f["output"]) for f in j["fns"]}
         for b in j["bodies"]:
             if b["promoted"] is None:
                 names.add(b["fn"])
+                if b["fn"] in sigs:
+                    sig[b["fn"]] = sigs[b["fn"]]
 with open(inline.BASELINE, "w") as f:
     f.write("# function paths of the confirmed tree (commit %s), union over %d configurations\n" % (os.popen("git -C /repo rev-parse --short HEAD").read().strip(), len(cfgs)))
     for n in sorted(names):
-        f.write(n + "\n")
+        f.write(n + ("\t" + sig[n] if n in sig else "") + "\n")
 print(len(names), "functions")
